@@ -4,8 +4,8 @@ LEVEL = "proof"
 LEAN_MODULES = ["Sonic.Props.C09"]
 REQUIRED_THEOREMS = ["Sonic.Props.C09." + n for n in [
     "C09_tab", "C09_quote", "C09_quote_anyW", "C09_len", "C09_extent", "C09_reads_mapped", "C09_independent"]]
-CONFIGS = [("avx2", "prod"), ("sse", "prod"), ("avx2", "san"), ("sse", "san")]
-CONFIGS_THOROUGH = CONFIGS + [("dyn", "prod")]
+CONFIGS = [("avx2", "prod"), ("sse", "prod"), ("avx2", "san"), ("sse", "san"), ("dyn", "prod")]
+CONFIGS_THOROUGH = CONFIGS + [("dyn", "san")]
 RULE = ("strings built from a byte alphabet weighted towards specials (quote, backslash, control bytes, 0x7f/0x80/0xff); "
         "each of the 256 byte values at every position 0..2W of strings of length 0..4W+3 (sampled in quick, stride-complete in "
         "thorough); runs of consecutive specials across block edges; source placed 0..80 bytes (and random distances) before an "
